@@ -1,7 +1,7 @@
 (* C16 - standard-library 64-bit arithmetic is exact.
    Only statements, [exact], and Print Assumptions. *)
 From Coq Require Import ZArith List Bool Arith Lia String.
-From MV Require Import Base.Field Core.Op Core.Rpo Vm.Pure Vm.PureProps Gen.StdGen Asm.Instr Asm.SpecDefs Asm.U64Instr Asm.U64More Asm.U64ShiftBase Asm.U64Shl Asm.U64Rotl Asm.HintDefs Asm.U64Div.
+From MV Require Import Base.Field Core.Op Core.Rpo Vm.Pure Vm.PureProps Gen.StdGen Asm.Instr Asm.SpecDefs Asm.U64Instr Asm.U64More Asm.U64ShiftBase Asm.U64Shl Asm.U64Rotl Asm.HintDefs Asm.U64Div Asm.U256Instr.
 Import ListNotations.
 Open Scope Z_scope.
 Open Scope string_scope.
@@ -136,3 +136,27 @@ Theorem c16_divmod_zero : forall h1 h2 h3 h4, canon h1 -> canon h2 -> canon h3 -
   view_rejects (hinted (std_ops_of "u64::divmod") [h1; h2; h3; h4]) 4 g4 (fun xs => B64 xs = 0).
 Proof. exact u64_divmod_zero. Qed.
 Print Assumptions c16_divmod_zero.
+
+(* ---- 256-bit procedures: operands b at positions 0..7 and a at positions 8..15, most significant limb
+   first, every limb below 2^32 (V256 is the value, limbs256 the eight result limbs) ------------------- *)
+Theorem c16_u256_add : instr_spec_g (std_ops_of "u256::add_unsafe") 16 g16 no_pre
+  (fun xs => limbs256 ((V256 xs 8 + V256 xs 0) mod 2 ^ 256)).
+Proof. exact u256_add. Qed.
+Print Assumptions c16_u256_add.
+Theorem c16_u256_and : instr_spec_g (std_ops_of "u256::and") 16 g16 no_pre (limbwise Z.land).
+Proof. exact u256_and. Qed.
+Print Assumptions c16_u256_and.
+Theorem c16_u256_xor : instr_spec_g (std_ops_of "u256::xor") 16 g16 no_pre (limbwise Z.lxor).
+Proof. exact u256_xor. Qed.
+Print Assumptions c16_u256_xor.
+Theorem c16_u256_or : instr_spec_g (std_ops_of "u256::or") 16 g16 no_pre (limbwise Z.lor).
+Proof. exact u256_or. Qed.
+Print Assumptions c16_u256_or.
+Theorem c16_u256_iszero : instr_spec_g (std_ops_of "u256::iszero_unsafe") 8 (fun _ => true) no_pre
+  (fun xs => [bool01 (forallb (fun k => nz xs k =? 0)%Z (seq 0 8))]).
+Proof. exact u256_iszero. Qed.
+Print Assumptions c16_u256_iszero.
+Theorem c16_u256_eq : instr_spec_g (std_ops_of "u256::eq_unsafe") 16 (fun _ => true) no_pre
+  (fun xs => [bool01 (forallb (fun k => nz xs k =? nz xs (8 + k))%Z (seq 0 8))]).
+Proof. exact u256_eq. Qed.
+Print Assumptions c16_u256_eq.
